@@ -92,6 +92,8 @@ func main() {
 			repoRoot = os.Args[2]
 		}
 		debugMapRange(loadResolve("", true))
+	case "debug-sub":
+		debugSub(loadResolve("", true))
 	case "debug-sign":
 		if len(os.Args) > 2 {
 			repoRoot = os.Args[2]
